@@ -465,6 +465,50 @@ def many_endpoint_cases(rng, tag, thorough=False):
         cases.append(Case('%s%d' % (tag, i), [feed_line(1, f) for f in fr], dict(frames=fr, eps=eps)))
     return cases
 
+def pigeonhole_cases(rng, tag, thorough=False, sizes=None):
+    """more endpoints pending at once than any small per-endpoint side structure (filter, cache, folded key) has slots, in three
+    families: a DENSE block (consecutive device ids x all 256 stream ids - contains the pairs that collide under shift/xor/add style
+    key foldings), random endpoints, one stream x consecutive device ids. All first segments; a random half is then completed or
+    aborted (which releases whatever it shares with a survivor); every survivor then either gets an abort event followed by the stray
+    remaining segments (nothing may be delivered) or its remaining segments (the message must be delivered intact)."""
+    cases = []
+    plan = sizes or ([('dense', 1024), ('random', 1000), ('devs', 800)] if not thorough else
+                     [('dense', 3072), ('dense', 16384), ('random', 2500), ('random', 70000), ('devs', 2300), ('devs', 66000)])
+    for i, (fam, n) in enumerate(plan):
+        r = rng.fork('%sph%d' % (tag, i))
+        if fam == 'dense':
+            d0 = r.choice([0, 1, r.below(60000)])
+            eps = [((d0 + j // 256) & 0xFFFF, j % 256) for j in range(n)]
+        elif fam == 'random':
+            seen = set(); eps = []
+            while len(eps) < n:
+                e = (r.below(65536), r.below(256))
+                if e not in seen:
+                    seen.add(e); eps.append(e)
+        else:
+            st = r.below(256); d0 = r.below(65536 - n) if n < 65536 else 0
+            eps = [((d0 + j) & 0xFFFF, st) for j in range(min(n, 65536))]
+        chains = {e: chain_frames(r, e, r.choice([0, 1, 65534, r.below(65536)]), 3, trail=False) for e in eps}
+        fr = [chains[e][0] for e in eps]
+        half, surv = [], []
+        for e in eps:
+            (half if r.chance(1, 2) else surv).append(e)
+        for e in half:
+            if r.chance(1, 2):
+                fr += chains[e][1:]
+            else:
+                fr.append(cmp_frame(1, e[0], 1, e[1], 9, [msg(5, 6, 0, 0x7E, b'a')]) if r.chance(1, 2) else cmp_frame(1, e[0], 1, e[1], 9, []))
+        for e in surv:
+            k = r.below(3)
+            if k == 0:
+                fr += [cmp_frame(1, e[0], 1, e[1], 9, [msg(5, 6, 0, 0x7E, b'a')])] + chains[e][1:]
+            elif k == 1:
+                fr += [cmp_frame(1, e[0], 1, e[1], 9, [])] + chains[e][1:]
+            else:
+                fr += chains[e][1:]
+        cases.append(Case('%sph%d' % (tag, i), [feed_line(1, f) for f in fr], dict(frames=fr, eps=eps)))
+    return cases
+
 def copy_cases(rng, tag, n):
     """a Decoder is copied while reassemblies are pending; original and copy then both receive the remaining frames (any merge order).
     A copy is a separate instance: each must behave as the reference decoder with a deep copy of the state"""
